@@ -8,6 +8,7 @@ package main
 
 import (
 	"fmt"
+	"sort"
 	"strings"
 	"sync"
 	"sync/atomic"
@@ -282,6 +283,92 @@ func evalDuplexCase(cs Case) ([]symptom, error) {
 	return out, nil
 }
 
+// ---- hdrorder: where grpc-encoding stands in the header block that makes the stream gRPC ----
+
+func hdrOrderConfigs() []config {
+	var out []config
+	for _, msgs := range [][]msgSpec{{{5, true}}, {{300, true}, {1, false}}} {
+		for _, enc := range []int{encGzip, encDeflate, encSnappy, encIdentity} {
+			for _, order := range []int{1, 2, 3} {
+				for _, pl := range []int{plLast, plTrailers} {
+					out = append(out, config{msgs: msgs, enc: enc, pl: pl, dir: dirC2S, ct: "application/grpc", hdrOrder: order})
+					// the response block decides alone only when no adapter saw the request
+					out = append(out, config{msgs: msgs, enc: enc, pl: pl, dir: dirS2C, ct: "application/grpc", hdrOrder: order, respOnly: true})
+					out = append(out, config{msgs: msgs, enc: enc, pl: pl, dir: dirS2C, ct: "application/grpc", hdrOrder: order})
+				}
+			}
+		}
+	}
+	// the plain order with a response-only processor, and a non-gRPC stream in every order
+	for _, order := range []int{0, 1, 2, 3} {
+		out = append(out, config{msgs: []msgSpec{{5, true}}, enc: encGzip, pl: plLast, dir: dirS2C, ct: "application/grpc", hdrOrder: order, respOnly: order == 0})
+		for dir := range dirNames {
+			out = append(out, config{msgs: []msgSpec{{5, true}}, enc: encGzip, pl: plLast, dir: dir, ct: "application/json", hdrOrder: order})
+		}
+	}
+	return out
+}
+
+func runHdrOrder(cfg config) *item {
+	it := newItem(cfg)
+	L := len(it.b.stream)
+	for _, cuts := range [][]int{nil, {2}, {L - 1}} {
+		it.one(cuts)
+	}
+	return it
+}
+
+// ---- bigthensmall: a message that grows the reassembly buffer, followed by more messages in the same frames ----
+
+func bigThenSmallConfigs() []config {
+	var out []config
+	for _, big := range []int{40000, 70000, 140000} {
+		B := msgSpec{big, false}
+		for _, v := range []struct {
+			enc   int
+			small msgSpec
+		}{{encIdentity, msgSpec{5, false}}, {encGzip, msgSpec{5, true}}, {encIdentity, msgSpec{0, false}}} {
+			for _, msgs := range [][]msgSpec{{B, v.small}, {B, v.small, v.small}, {v.small, B, v.small}} {
+				for _, pl := range []int{plLast, plSeparate} {
+					for dir := range dirNames {
+						out = append(out, config{msgs: msgs, enc: v.enc, pl: pl, dir: dir, ct: "application/grpc"})
+					}
+				}
+			}
+		}
+	}
+	return out
+}
+
+// runBigThenSmall: DATA frames as a real sender makes them (a cut at every multiple of 16384) and the same
+// with one more cut at each offset -2..+7 around every message boundary.
+func runBigThenSmall(cfg config) *item {
+	it := newItem(cfg)
+	L := len(it.b.stream)
+	var base []int
+	for p := defaultMaxFrame; p < L; p += defaultMaxFrame {
+		base = append(base, p)
+	}
+	it.one(base)
+	seen := map[int]bool{}
+	for _, p := range base {
+		seen[p] = true
+	}
+	for i := 0; i+1 < len(it.b.ends); i++ {
+		for d := -2; d <= 7; d++ {
+			p := it.b.ends[i] + d
+			if p < 1 || p > L-1 || seen[p] {
+				continue
+			}
+			seen[p] = true
+			cuts := append(append([]int{}, base...), p)
+			sort.Ints(cuts)
+			it.one(cuts)
+		}
+	}
+	return it
+}
+
 // ---- driver ----
 
 func runAuditFamilies(rep *lib.Report, thorough bool, deadline time.Time, timedOut *int32, mu *sync.Mutex, viol map[string]*vbest) string {
@@ -310,6 +397,22 @@ func runAuditFamilies(rep *lib.Report, thorough bool, deadline time.Time, timedO
 			return
 		}
 		collectItem("emptyframes", runEmptyFrames(ecfgs[k]))
+	})
+
+	// hdrorder, bigthensmall
+	hcfgs := hdrOrderConfigs()
+	lib.Parallel(len(hcfgs), func(k int) {
+		if expired() {
+			return
+		}
+		collectItem("hdrorder", runHdrOrder(hcfgs[k]))
+	})
+	bcfgs := bigThenSmallConfigs()
+	lib.Parallel(len(bcfgs), func(k int) {
+		if expired() {
+			return
+		}
+		collectItem("bigthensmall", runBigThenSmall(bcfgs[k]))
 	})
 
 	// enchdr
@@ -356,6 +459,8 @@ func runAuditFamilies(rep *lib.Report, thorough bool, deadline time.Time, timedO
 
 	return fmt.Sprintf("; emptyframes: %d configurations (sequences of <=%d messages over sizes {0,1,4,5,6} x flag, identity/gzip, every END_STREAM placement, both directions, grpc/json) x all cut sets with <=1 cut x every non-empty set of insertion points of an empty non-final DATA frame; "+
 		"enchdr: grpc-encoding values %q on %d configurations (gRPC streams judged for panics only, non-gRPC ones fully), plus 'no grpc-encoding header' in the main product for sequences of <=1 message; "+
-		"duplex: %d pairs (request half x response half of one stream, incl. a Trailers-Only response) x every interleaving of their calls; %s",
-		len(ecfgs), map[bool]int{false: 1, true: 2}[thorough], unknownEncodings, len(ucfgs), len(dts), wireNote)
+		"duplex: %d pairs (request half x response half of one stream, incl. a Trailers-Only response) x every interleaving of their calls; "+
+		"hdrorder: %d configurations: grpc-encoding before / after content-type, adjacent or with te, user-agent and a custom field between them, in the request block and in the response block (also with a response-only processor, where the response block alone makes the stream gRPC), all four encodings, compressed messages; "+
+		"bigthensmall: %d configurations: [big, small], [big, small, small], [small, big, small] with an uncompressed big message of 40000, 70000 or 140000 bytes, cut at every multiple of 16384 plus one more cut at each offset -2..+7 around every message boundary; %s",
+		len(ecfgs), map[bool]int{false: 1, true: 2}[thorough], unknownEncodings, len(ucfgs), len(dts), len(hcfgs), len(bcfgs), wireNote)
 }
